@@ -247,7 +247,12 @@ template <class F> static bool guarded(vh::Ctx& c, const std::string& what, F f)
     try { f(); return true; }
     catch (const std::exception& e) {
         ++g_threw;
-        c.viol("exception:" + what + ":" + vh::normMsg(e.what()).substr(0, 90), Json::obj().set("what", vh::firstLine(e.what(), 500)));
+        // stable short class of the message: text after the "file:line:" prefix up to the first comma
+        std::string m = vh::normMsg(e.what());
+        size_t p = m.find("#:"); if (p != std::string::npos) m = m.substr(p + 2);
+        while (!m.empty() && m[0] == ' ') m.erase(0, 1);
+        m = m.substr(0, std::min(m.find(','), (size_t)60));
+        c.viol("exception:" + what + ":" + m, Json::obj().set("what", vh::firstLine(e.what(), 500)));
         return false;
     }
 }
@@ -263,8 +268,10 @@ static void runCase(vh::Ctx& c, long idx, vh::Rng& r) {
     M.acc = ACC[acls];
     M.ny = kind == 0 ? 1 : r.integer(1, 20);
     M.nf = kind == 2 ? r.integer(1, 10) : 1;
-    if (kind == 2 && (idx / 300) % 4 == 1) M.nf = 1;           // Jacobian function used as a gradient
-    if (kind != 0 && (idx / 300) % 4 == 2) M.ny = 1;           // 1-parameter gradient / Jacobian functions
+    const int shapeSel = (int)((idx / 7) % 4);                 // stride co-prime with the cell cycle
+    if (kind == 2 && shapeSel == 1) M.nf = 1;                  // Jacobian function used as a gradient (1xn)
+    if (kind != 0 && shapeSel == 2) M.ny = 1;                  // 1-parameter gradient / Jacobian functions
+    if (kind == 2 && shapeSel == 3 && idx % 2) { M.nf = 1; M.ny = 1; }   // 1x1 Jacobian function
     std::vector<double> y0(M.ny);
     for (int i = 0; i < M.ny; ++i) {
         int cls = ycls == 4 ? r.integer(0, 3) : ycls;
